@@ -1,5 +1,6 @@
 import BufModel.Generate
 import BufProofs.Lemmas.PathLemmas
+import BufProofs.Props.C01
 /-
   Helper lemmas for C17: sorting/dedup are permutations, `getFile`, the DFS of
   `addFileWithImports` (no duplicates, output ⊆ seen, everything new was unseen, grey set
@@ -1296,5 +1297,245 @@ theorem validate_error_is_duplicate (key : Str → Str → Str) :
           · injection hv with hv; exact hv.symm
           · exact ihf _ hv
     · exact ih _ e h
+
+
+/-! ### Built images are ordered (connection to C01) -/
+
+/-- The image `buf generate` receives from the build (`BufModel.Targeting.buildImage`, property
+    C01) seen as a C17 image: the dependencies of a file are what the compiler says it imports,
+    `isWKT` is `datawkt.Exists` (a parameter `w`). -/
+def ofBuilt (c : BufModel.Targeting.Compiler) (w : Str → Bool) (img : List BufModel.Targeting.ImgFile) : Image :=
+  img.map fun f => ⟨f.path, f.isImport, w f.path, c.imports f.path⟩
+
+theorem paths_ofBuilt (c : BufModel.Targeting.Compiler) (w : Str → Bool) (img : List BufModel.Targeting.ImgFile) :
+    paths (ofBuilt c w img) = img.map (·.path) := by
+  unfold paths ofBuilt; simp
+
+/-- Every image the build can produce is `Ordered`: C01's `image_nodup` and
+    `image_topological`. -/
+theorem ordered_of_buildImage (t : BufModel.Targeting.TWS) (c : BufModel.Targeting.Compiler)
+    (perm : List Str → List Str) (img : List BufModel.Targeting.ImgFile)
+    (h : BufModel.Targeting.buildImage t c perm = .ok img) (w : Str → Bool) :
+    Ordered (ofBuilt c w img) := by
+  constructor
+  · rw [paths_ofBuilt]; exact BufProofs.C01.image_nodup t c perm img h
+  · intro pre x post e d hd _
+    unfold ofBuilt at e
+    obtain ⟨l1, l2', hl, hpre, hrest⟩ := List.map_eq_append_iff.mp e
+    obtain ⟨f, l2, hl2, hx, _⟩ := List.map_eq_cons_iff.mp hrest
+    subst hl2
+    have := BufProofs.C01.image_topological t c perm img h l1 f l2 hl d (by rw [← hx] at hd; exact hd)
+    rw [← hpre]
+    simpa [paths] using this
+
+
+/-! ### From bucket keys to disk paths -/
+
+/-- An absolute path cleans to `/` followed by proper name components (no `..` survives at the
+    root). -/
+theorem clean_abs_shape (s : Str) (h : isAbs s = true) :
+    ∃ os : List Comp, AllProper os ∧ clean s = '/' :: joinSlash os := by
+  obtain ⟨k, names, hr, hp, hk⟩ := reduce_shape true (splitSlash s) (splitSlash_no_slash s)
+  have hk0 : k = 0 := hk rfl
+  subst hk0
+  refine ⟨names, hp, ?_⟩
+  unfold clean
+  rw [h, hr]
+  simp [render]
+
+theorem isAbs_ne_nil {s : Str} (h : isAbs s = true) : s ≠ [] := by
+  intro e; subst e; simp [isAbs] at h
+
+theorem isAbs_append {s : Str} (h : isAbs s = true) (t : Str) : isAbs (s ++ t) = true := by
+  cases s with
+  | nil => simp [isAbs] at h
+  | cons c cs => simpa [isAbs] using h
+
+/-- `filepath.Abs(out)` against an absolute working directory is `/` followed by proper name
+    components. -/
+theorem absPath_shape (cwd out : Str) (hc : isAbs cwd = true) :
+    ∃ os : List Comp, AllProper os ∧ absPath cwd out = '/' :: joinSlash os := by
+  unfold absPath
+  by_cases ho : isAbs out = true
+  · simp only [ho, if_true]; exact clean_abs_shape out ho
+  · simp only [ho, Bool.false_eq_true, if_false]
+    unfold join
+    have hcn := isAbs_ne_nil hc
+    by_cases hon : out = []
+    · subst hon
+      simp only [List.filter, hcn, ne_eq, not_false_eq_true, decide_true, not_true_eq_false, decide_false]
+      exact clean_abs_shape _ (by simpa [joinSlash] using hc)
+    · simp only [List.filter, hcn, hon, ne_eq, not_false_eq_true, decide_true]
+      exact clean_abs_shape _ (by
+        show isAbs (cwd ++ '/' :: out) = true
+        exact isAbs_append hc _)
+
+theorem splitSlash_rooted_plain {os : List Comp} (h : AllProper os) :
+    (∀ c ∈ splitSlash ('/' :: joinSlash os), Proper c ∨ c = dot ∨ c = []) ∧
+    (splitSlash ('/' :: joinSlash os)).filter (fun c => decide (Proper c)) = os := by
+  rw [splitSlash_cons_slash]
+  have hnp : ¬ Proper ([] : Comp) := fun h => h.1 rfl
+  cases os with
+  | nil =>
+    simp only [joinSlash, splitSlash]
+    exact ⟨by intro c hc; simp at hc; exact Or.inr (Or.inr hc), by simp [List.filter, hnp]⟩
+  | cons o os' =>
+    rw [splitSlash_joinSlash (o :: os') (by simp) (fun n hn => proper_no_slash (h n hn))]
+    constructor
+    · intro c hc
+      rcases List.mem_cons.mp hc with rfl | hc
+      · exact Or.inr (Or.inr rfl)
+      · exact Or.inl (h c hc)
+    · simp only [List.filter, hnp, decide_false]
+      exact filter_proper_of_allProper h
+
+/-- The file `storageos` writes for bucket key `k` under root `o`: the root's components
+    followed by the key's components — no `..`, at least one component below the root. -/
+theorem diskPath_shape {os ns : List Comp} (ho : AllProper os) (hn : AllProper ns) :
+    diskPath ('/' :: joinSlash os) (renderKey ns) = '/' :: joinSlash (os ++ ns) := by
+  unfold diskPath join
+  have hnb := renderKey_ne_nil hn
+  simp only [List.filter, hnb, ne_eq, not_false_eq_true, decide_true, reduceCtorEq]
+  show clean (('/' :: joinSlash os) ++ '/' :: renderKey ns) = _
+  unfold clean
+  have habs : isAbs (('/' :: joinSlash os) ++ '/' :: renderKey ns) = true := by simp [isAbs]
+  rw [habs, splitSlash_append]
+  obtain ⟨h1, h2⟩ := splitSlash_rooted_plain ho
+  rw [reduce_plain true _ (by
+    intro c hc
+    rcases List.mem_append.mp hc with hc | hc
+    · exact h1 c hc
+    · exact splitSlash_renderKey_plain hn c hc)]
+  rw [List.filter_append, h2, filter_splitSlash_renderKey hn]
+  simp [render]
+
+/-! ### Forward direction: every returned file lands in its plugin's bucket -/
+
+theorem mem_keys_erase {m : Mem} {p k : Str} (h : k ∈ m.keys) (hne : k ≠ p) : k ∈ (m.erase p).keys := by
+  unfold Mem.keys at h
+  obtain ⟨kv, hkv, rfl⟩ := List.mem_map.mp h
+  unfold Mem.erase Mem.keys
+  exact List.mem_map.mpr ⟨kv, List.mem_filter.mpr ⟨hkv, by simpa using hne⟩, rfl⟩
+
+theorem memPut_keys_fwd {m m' : Mem} {name : Str} {c : Content} (h : memPut m name c = .ok m') :
+    ∃ p, validatePath name = .ok p ∧ p ∈ m'.keys ∧ ∀ k ∈ m.keys, k ∈ m'.keys := by
+  unfold memPut at h
+  split at h
+  · cases h
+  · rename_i p hp
+    injection h with h; subst h
+    refine ⟨p, hp, by simp [Mem.keys], ?_⟩
+    intro k hk
+    by_cases e : k = p
+    · subst e; simp [Mem.keys]
+    · have := mem_keys_erase hk e
+      simp only [Mem.keys, List.map_cons, List.mem_cons]
+      exact Or.inr this
+
+theorem writeFile_keys_fwd {m m' : Mem} {f : RFile} (h : writeFile m f = .ok m') :
+    ∃ p, validatePath f.name = .ok p ∧ p ∈ m'.keys ∧ ∀ k ∈ m.keys, k ∈ m'.keys := by
+  unfold writeFile at h
+  split at h
+  · split at h
+    · cases h
+    · split at h
+      · cases h
+      · exact memPut_keys_fwd (liftP_ok h)
+  · exact memPut_keys_fwd (liftP_ok h)
+
+theorem writeResponse_fwd :
+    ∀ (fs : List RFile) (m m' : Mem), writeResponse m fs = .ok m' →
+      (∀ k ∈ m.keys, k ∈ m'.keys) ∧ ∀ f ∈ fs, ∃ p, validatePath f.name = .ok p ∧ p ∈ m'.keys
+  | [], m, m', h => by
+    simp [writeResponse] at h; subst h
+    exact ⟨fun k hk => hk, by simp⟩
+  | f :: fs, m, m', h => by
+    unfold writeResponse at h
+    split at h
+    · cases h
+    · rename_i m1 hw
+      obtain ⟨p, hp, hpm, hmono⟩ := writeFile_keys_fwd hw
+      obtain ⟨r1, r2⟩ := writeResponse_fwd fs m1 m' h
+      refine ⟨fun k hk => r1 k (hmono k hk), ?_⟩
+      intro g hg
+      rcases List.mem_cons.mp hg with rfl | hg
+      · exact ⟨p, hp, r1 p hpm⟩
+      · exact r2 g hg
+
+/-- bucket `o` exists and holds key `k`. -/
+def HasKey (bs : Buckets) (o k : Str) : Prop := ∃ m, bs.find o = some m ∧ k ∈ m.keys
+
+theorem find_set_same (bs : Buckets) (o : Str) (m : Mem) : (bs.set o m).find o = some m := by
+  induction bs with
+  | nil => simp [Buckets.set, Buckets.find]
+  | cons kv rest ih =>
+    obtain ⟨k, v⟩ := kv
+    unfold Buckets.set
+    by_cases hk : k = o
+    · simp [hk, Buckets.find]
+    · simp [hk, Buckets.find, ih]
+
+theorem find_set_ne (bs : Buckets) {o o' : Str} (m : Mem) (h : o' ≠ o) : (bs.set o m).find o' = bs.find o' := by
+  induction bs with
+  | nil => simp [Buckets.set, Buckets.find, Ne.symm h]
+  | cons kv rest ih =>
+    obtain ⟨k, v⟩ := kv
+    unfold Buckets.set
+    by_cases hk : k = o
+    · subst hk; simp [Buckets.find, Ne.symm h]
+    · by_cases hk' : k = o'
+      · subst hk'; simp [hk, Buckets.find]
+      · simp [hk, hk', Buckets.find, ih]
+
+theorem addResponse_fwd {cwd : Str} {bs bs' : Buckets} {p : PluginResp} (h : addResponse cwd bs p = .ok bs') :
+    (∀ o k, HasKey bs o k → HasKey bs' o k) ∧
+    ∀ f ∈ p.files, ∃ k, validatePath f.name = .ok k ∧ HasKey bs' (absPath cwd p.out) k := by
+  unfold addResponse at h
+  simp only at h
+  split at h
+  · cases h
+  · rename_i m hw
+    injection h with h; subst h
+    obtain ⟨r1, r2⟩ := writeResponse_fwd _ _ _ hw
+    constructor
+    · intro o k ⟨m0, hf, hk⟩
+      by_cases ho : o = absPath cwd p.out
+      · subst ho
+        refine ⟨m, find_set_same _ _ _, r1 k ?_⟩
+        rw [hf]; exact hk
+      · exact ⟨m0, by rw [find_set_ne _ _ ho]; exact hf, hk⟩
+    · intro f hf
+      obtain ⟨k, hk, hkm⟩ := r2 f hf
+      exact ⟨k, hk, m, find_set_same _ _ _, hkm⟩
+
+theorem addResponses_fwd (cwd : Str) :
+    ∀ (ps : List PluginResp) (bs bs' : Buckets), addResponses cwd bs ps = .ok bs' →
+      (∀ o k, HasKey bs o k → HasKey bs' o k) ∧
+      ∀ p ∈ ps, ∀ f ∈ p.files, ∃ k, validatePath f.name = .ok k ∧ HasKey bs' (absPath cwd p.out) k
+  | [], bs, bs', h => by
+    simp [addResponses] at h; subst h
+    exact ⟨fun _ _ hk => hk, by simp⟩
+  | p :: ps, bs, bs', h => by
+    unfold addResponses at h
+    split at h
+    · cases h
+    · rename_i bs1 hadd
+      obtain ⟨a1, a2⟩ := addResponse_fwd hadd
+      obtain ⟨r1, r2⟩ := addResponses_fwd cwd ps bs1 bs' h
+      refine ⟨fun o k hk => r1 o k (a1 o k hk), ?_⟩
+      intro q hq f hf
+      rcases List.mem_cons.mp hq with rfl | hq
+      · obtain ⟨k, hk, hh⟩ := a2 f hf
+        exact ⟨k, hk, r1 _ _ hh⟩
+      · exact r2 q hq f hf
+
+theorem hasKey_flushed {bs : Buckets} {o k : Str} (h : HasKey bs o k) :
+    ∃ c, (o, k, c) ∈ flushed bs := by
+  obtain ⟨m, hf, hk⟩ := h
+  unfold Mem.keys at hk
+  obtain ⟨⟨k', c⟩, hkc, rfl⟩ := List.mem_map.mp hk
+  refine ⟨c, ?_⟩
+  unfold flushed
+  exact List.mem_flatMap.mpr ⟨(o, m), find_mem hf, List.mem_map.mpr ⟨(k', c), hkc, rfl⟩⟩
 
 end BufModel.Generate
